@@ -309,6 +309,29 @@ func ilCase(env *core.Env, idx int, prop string) *core.CaseResult {
 		if r.Intn(4) == 0 {
 			progs[p].End = "abort"
 		}
+		// one program in eight is directed at "own earlier writes": a write of a hot row (often row 1, the first row of the
+		// heap) followed by a read of the same row through a drawn access path
+		if !rmw && ns >= 2 && r.Intn(8) == 0 {
+			id := int32(1)
+			if r.Intn(3) == 0 {
+				id = int32(1 + r.Intn(3))
+			}
+			tok := fmt.Sprintf("p%dw", p)
+			var w ilStmt
+			switch r.Intn(4) {
+			case 0:
+				w = ilStmt{Kind: "delete", ID: id}
+			case 1:
+				w = ilStmt{Kind: "upd-reloc", ID: id, Tok: tok}
+			case 2:
+				fresh++
+				w = ilStmt{Kind: "upd-key", ID: id, ID2: fresh}
+			default:
+				w = ilStmt{Kind: "upd-k", ID: id, K: int32(r.Intn(3))}
+			}
+			rd := []ilStmt{{Kind: "read-scan", ID: id}, {Kind: "read-idx", ID: id}, {Kind: "read-range", ID: id, ID2: id + 2}, {Kind: "read-k", K: int32(r.Intn(3))}}[r.Intn(4)]
+			progs[p].Stmts[0], progs[p].Stmts[1] = w, rd
+		}
 	}
 	// C05: make rmw-append always follow a read of the same row in the same transaction
 	if rmw {
